@@ -362,6 +362,13 @@ func init() {
 		}
 		return TupleVal{m.zero(ct), m.newError(m.in.Str("invalid cid"))}
 	})
+	reg("github.com/multiformats/go-multiaddr.NewMultiaddr", func(m *Machine, fn *ssa.Function, a []Value) Value {
+		ok := m.in.UF("validmultiaddr", SBool, a[0].(*Term))
+		if m.branch(ok) {
+			return TupleVal{nilIface, nilIface} // the parsed address itself is never used
+		}
+		return TupleVal{nilIface, m.newError(m.in.Str("invalid multiaddr"))}
+	})
 	reg(sdkTypes+".ValidateDenom", func(m *Machine, fn *ssa.Function, a []Value) Value {
 		d := a[0].(*Term)
 		if d.IsConst() {
